@@ -44,6 +44,8 @@ def run(ctx):
     # times and separators as GDB mode shows them
     from props import gdbbase
     gdbbase.gdb_batch(ctx, rep, relevant('C16'), ctx.pick(40, 400), 1000393, cmd_rate=0.2, destroy_rate=0.02)
+    # ... and as a real process in file mode
+    sessbase.process_batch(ctx, rep, ['sep', 'msg'], ctx.pick(12, 120), 1000427)
     return rep
 
 
